@@ -1,4 +1,5 @@
 import Orca.Lemmas.SemBranch
+import Orca.Lemmas.SpecialFlat
 /-!
 # C20 — semantic-after probes fire exactly once after the instruction
 
@@ -113,5 +114,18 @@ def exF15 : Func := { nres := 0, body := [ .probe 7, .br [] [] (some ⟨0, [1006
 theorem c20_branch_counterexample_function_label :
     trF (runFunc [] true 50 exF15 (exSt [])) = [7, 1006]
     ∧ trF (runFunc [] false 50 (lowerF exF15) (exSt [])) = [7] := by decide
+
+/-- the flat-code statement for M3, the transcription of the resolver (every body; `Lemmas/SpecialFlat.lean`): a semantic-after
+    probe on a `block` / `loop` / `if` is encoded behind the construct's matching `end` -/
+theorem c20_flat_semantic_after_placed (f : Orca.Lower.Func) (pre region post : List Orca.Lower.Instr) (sel endI : Orca.Lower.Instr)
+    (pr : List Orca.Lower.Tok) (hbody : f.body = pre ++ sel :: region ++ endI :: post) (hpne : post ≠ [])
+    (hsp : f.hasSpecial = true) (hentry : f.entry = []) (hexit : f.exit = [])
+    (hpre : ∀ x ∈ pre, Orca.Lower.Clean x) (hreg : ∀ x ∈ region, Orca.Lower.Clean x) (hend : Orca.Lower.Clean endI)
+    (hpost : ∀ x ∈ post, Orca.Lower.Clean x) (hsel : Orca.Lower.OnlySemAfter sel pr)
+    (hk : sel.kind = .block ∨ sel.kind = .loop ∨ sel.kind = .if_)
+    (hendk : endI.kind = .end_) (n n2 : Nat) (hd1 : Orca.Lower.depthAfter pre 1 = some n)
+    (hd2 : Orca.Lower.depthAfter region 0 = some 0) (hd3 : Orca.Lower.depthAfter post n = some n2) :
+    Orca.Lower.lower f = (Orca.Lower.toks pre ++ [sel.tok] ++ Orca.Lower.toks region ++ [endI.tok] ++ pr ++ Orca.Lower.toks post, f.added) :=
+  Orca.Lower.semAfter_placed f pre region post sel endI pr hbody hpne hsp hentry hexit hpre hreg hend hpost hsel hk hendk n n2 hd1 hd2 hd3
 
 end Orca.Sem
